@@ -180,6 +180,25 @@ PROPS = {
                      "is_valid_token / is_valid_user_token are external in unit sessions (their contracts are proved in unit store)",
                      "sessions are modelled abstractly in the accounting lemmas: a map from session ids to the selected database"],
     ),
+    "C04": dict(
+        units=["store", "consensus", "outbox", "parser", "pending", "traffic"],
+        undecided=["the protocol level of the statement: every delivery order that keeps links FIFO, 2-3 processes, two concurrent clients on the primary - no contract on one call states it; what is "
+                   "decided is (a) per step, on the real store operations, that a write / remove / increment is a FUNCTION of the key's cell (text, version, state) and of the line's own "
+                   "fields, (b) the machine-checked lemma that two nodes that agree and apply the same sequence of lines in the same order agree after every prefix, for any number of lines, "
+                   "(c) line fidelity: what an accepted command leaves the node as, what the receiver parses, what the Replicate* handlers run, who is handed the operation",
+                   "that every secondary really receives the primary's lines in the primary's order (one replication thread, FIFO links) is an assumption of lemma (b), not proved",
+                   "databases with the `newer` strategy: the resolution compares op ids, which come from each node's own clock - the step is then NOT a function of cell and line alone; "
+                   "covered by the bounded family replica only (values), as for C19",
+                   "operations accepted by a SECONDARY: the node applies the write itself AND forwards it, and later receives the primary's copy of its own write - two open known findings "
+                   "(the version of such a key runs ahead on the originating secondary; a resolution reaches a secondary twice); a remove accepted by a secondary was never handed to the "
+                   "primary (defect 21, fixed by 58a84b1)",
+                   "create-db / create-user / set-permissions / snapshot lines: create-user and set-permissions are writes of a key (covered as writes); create-db and replicate-snapshot "
+                   "handlers are not under a C04 contract (the bounded family traffic compares the databases of both nodes)",
+                   "snapshots change the state of a cell (dirty -> persisted) and thereby what a later remove leaves (tombstone or nothing): the relation replica_rel includes the state, "
+                   "so the lemma holds when both nodes snapshot at the same points of the sequence; a node that snapshots on its own schedule is outside it"],
+        assumptions=["set_exact / remove_exact / inc_exact pin the version and state arithmetic exactly (they restate, as one predicate each, what the C01 / C02 clauses of the same functions pin)",
+                     "sequential semantics; op ids and disk addresses are node-local and excluded from the relation"],
+    ),
     "C05": dict(
         units=["sync", "outbox", "oplog", "parser", "traffic"],
         undecided=["the protocol: join / replicate-since handshake, the supervisor loop, sockets, writes accepted during the synchronisation (async code, several processes)",
